@@ -1,10 +1,10 @@
 (* Properties_C02.v -- the AMG cycle is a fixed linear, symmetric operator.
    Statements only; proofs in AmgProofs2.v (lock-step lemma), AmgProofs3.v (A1), AmgProofs4.v /
-   AmgProofs5.v (A2), AmgProofs6.v - AmgProofs9.v (A3), AmgProofs10.v (B1).  Model: Amg.v cycle/apply (amgcl/amg.hpp:289-297, 515-553),
+   AmgProofs5.v (A2), AmgProofs6.v - AmgProofs9.v (A3), AmgProofs10.v - AmgProofs12.v (B1).  Model: Amg.v cycle/apply (amgcl/amg.hpp:289-297, 515-553),
    smoothers Relax.v, exact coarse solve DenseSolve.v. *)
 From Coq Require Import QArith Qcanon.
 From Amgcl Require Import Scalar QcInst Vec Crs Kernels KernelsProofs MatOps Relax DenseSolve Amg AmgExec
-  AmgProofs AmgProofs2 AmgProofs3 AmgProofs4 AmgProofs5 AmgProofs6 AmgProofs7 AmgProofs8 AmgProofs9 AmgProofs10 AmgOrderQc AmgExamples.
+  AmgProofs AmgProofs2 AmgProofs3 AmgProofs4 AmgProofs5 AmgProofs6 AmgProofs7 AmgProofs8 AmgProofs9 AmgProofs10 AmgOrder AmgProofs11 AmgProofs12 AmgOrderQc AmgExamples.
 Local Close Scope Qc_scope.
 Local Close Scope Q_scope.
 Local Open Scope S_scope.
@@ -411,12 +411,65 @@ Theorem C02_exact_solve_energy {S : Scalar} (Sft : Sfield S) (Seqb : seqb_spec S
 Proof. exact (exact_solve_dec Sft Seqb O1 A). Qed.
 Print Assumptions C02_exact_solve_energy.
 
+(* --- the smoother hypotheses from matrix properties (ordered field; `ordered S` is the
+   ordered-ring interface of AmgOrder.v through the record's operator<).
+   mmat n A: symmetric, off-diagonal entries <= 0, positive diagonal, weakly diagonally dominant
+   (sum_{j<>i} -a_ij <= a_ii): the M-matrices of the property text. *)
+Theorem C02_mmatrix_quadratic_bounds {S : Scalar} (Sft : Sfield S) (Ord : ordered S) n (A : crs S) :
+  mmat n A -> forall x : vec S,
+  ole s0 (qA n A x x) /\ ole (qA n A x x) (Dq n A x + Dq n A x).
+Proof. exact (fun HM x => conj (mmat_psd Sft Ord n A HM x) (mmat_upper Sft Ord n A HM x)). Qed.
+Print Assumptions C02_mmatrix_quadratic_bounds.
+
+(* damped Jacobi, 0 < w <= 1, decreases the energy; strictly (non-zero residual) for w < 1 *)
+Theorem C02_jacobi_energy {S : Scalar} (Sft : Sfield S) (Seqb : seqb_spec S) (Ord : ordered S)
+  (A : crs S) (w : S) (junk : vec S) :
+  wf A = true -> mmat (nrows A) A -> fdiag_ok A -> olt s0 w -> ole w s1 ->
+  let sw := fun rhs x t => jacobi_sweep w (jacobi_setup A junk) A rhs x t in
+  it_dec (nrows A) A (sm (nrows A) sw) /\ (olt w s1 -> it_sdec (nrows A) A (sm (nrows A) sw)).
+Proof.
+  exact (fun WA HM Hf H0 H1 =>
+    conj (jacobi_it_dec Sft Seqb Ord A w junk WA HM Hf H0 H1)
+         (jacobi_it_sdec Sft Seqb Ord A w junk WA HM Hf H0)).
+Qed.
+Print Assumptions C02_jacobi_energy.
+
+(* Gauss-Seidel: each row relaxation is a coordinate-descent step; both sweeps decrease the
+   energy, strictly on non-zero residuals *)
+Theorem C02_gs_energy {S : Scalar} (Sft : Sfield S) (Seqb : seqb_spec S) (Ord : ordered S)
+  (A : crs S) fwd :
+  wf A = true -> sym_mat (nrows A) A -> gs_diag_ok A -> (forall i, i < nrows A -> olt s0 (mget A i i)) ->
+  it_dec (nrows A) A (sm (nrows A) (gs_sw A fwd)) /\ it_sdec (nrows A) A (sm (nrows A) (gs_sw A fwd)).
+Proof.
+  exact (fun WA SA DA HP => conj (gs_it_dec Sft Seqb Ord A WA SA DA HP fwd)
+                                 (gs_it_sdec Sft Seqb Ord A WA SA DA HP fwd)).
+Qed.
+Print Assumptions C02_gs_energy.
+
+(* every Galerkin chain of M-matrices with Jacobi (0 < w <= 1) or Gauss-Seidel and the exact
+   coarse solve satisfies hier_dec *)
+Theorem C02_built_hierarchy_energy {S : Scalar} (Sft : Sfield S) (Seqb : seqb_spec S) (Ord : ordered S)
+  k (ls : list (@ldesc S)) :
+  kind_ok k -> chain (@galerkin S) ls -> descs_spd ls -> hier_dec (std_levels k ls).
+Proof. exact (chain_hier_dec Sft Seqb Ord k ls). Qed.
+Print Assumptions C02_built_hierarchy_energy.
+
+(* B1 closed: contraction (strict energy decrease) and positivity of the preconditioner *)
+Theorem C02_built_contracts {S : Scalar} (Sft : Sfield S) (Seqb : seqb_spec S) (Ord : ordered S)
+  kd ce dc ml ts (M : crs S) k nc pc :
+  kind_ok kd -> kind_strict kd ->
+  let ls := amg_init ce dc ml (@galerkin S) ts M in
+  descs_spd ls -> top_smoothed ls ->
+  let lvls := std_levels kd ls in
+  forall scr g x, scratch_wf lvls scr -> length g = nrows M -> length x = nrows M ->
+  g <> vzero (nrows M) ->
+  let B := fst (apply (Datatypes.S k) (Datatypes.S k) (Datatypes.S nc) (Datatypes.S pc) lvls scr g x) in
+  lt0 (qA (nrows M) (sort_rows M) B B - two * ip (nrows M) g B) /\ olt s0 (ip (nrows M) g B).
+Proof. exact (built_contracts Sft Seqb Ord kd ce dc ml ts M k nc pc). Qed.
+Print Assumptions C02_built_contracts.
+
 (* FULL STATEMENT (unproved), rest of B1:
-   (a) the smoother conditions of hier_dec / top_strict discharged from matrix properties:
-       it_dec / it_sdec (sm n (damped Jacobi w)) when <A v, v> <= (2/w) <D v, v> (e.g. weakly
-       diagonally dominant symmetric A with positive diagonal and 0 < w <= 1), and for the
-       symmetric Gauss-Seidel pair from M + M^T - A = D > 0; for ILU / Chebyshev they stay
-       hypotheses;
+   (a) SPAI-0 / ILU / Chebyshev smoothers: the energy conditions stay hypotheses of hier_dec;
    (b) the third clause of Inv, <A B g, B g> <= <B g, g> (only <= 2 <B g, g> is proved), and
        "spectral radius of I - B A < 1" (follows from the strict energy decrease by the textbook
        eigenvector argument, not formalised);
@@ -503,6 +556,46 @@ Proof.
   exact (apply_energy_strict QcS_ring QcS_eqb QcS_le0_0 QcS_le0_add QcS_lt0_add k nc pc lvls).
 Qed.
 Print Assumptions C02_apply_energy_strict_Qc.
+
+(* end to end on a concrete family member: 1-D Poisson (n = 4), two pairwise aggregations,
+   damped Jacobi w = 1/2, direct solve on the 1 x 1 level, every V(k,k) / W(k,k) cycle with
+   k >= 1 and every pre_cycles >= 1: the preconditioner is linear, symmetric, positive, and one
+   application strictly decreases the energy -- no hypothesis left but the vector lengths *)
+Definition exJacH : @relax_kind QcS := RJacobi (qc 1 2).
+Theorem C02_apply_contracts_Qc k nc pc :
+  let lvls := std_levels exJacH exH in
+  forall scr scr2 scr3 (g h x x2 x3 : vec QcS) (a b : T QcS),
+  scratch_wf lvls scr -> scratch_wf lvls scr2 -> scratch_wf lvls scr3 ->
+  length g = 4 -> length h = 4 -> length x = 4 -> length x2 = 4 -> length x3 = 4 ->
+  let Bop := fun s f y => fst (apply (Datatypes.S k) (Datatypes.S k) (Datatypes.S nc) (Datatypes.S pc) lvls s f y) in
+  Bop scr3 (vlin a g b h) x3 = vlin a (Bop scr g x) b (Bop scr2 h x2) /\
+  dot (Bop scr g x) h = dot g (Bop scr2 h x2) /\
+  (g <> vzero 4 ->
+   lt0 (qA 4 (sort_rows exM) (Bop scr g x) (Bop scr g x) - two * ip 4 g (Bop scr g x)) /\
+   olt s0 (ip 4 g (Bop scr g x))).
+Proof.
+  intros lvls scr scr2 scr3 g h x x2 x3 a b H1 H2 H3 Lg Lh Lx Lx2 Lx3 Bop.
+  split; [|split].
+  - apply (built_apply_linear QcS_ring QcS_eqb exJacH 1 true 10 None exTs exM); try assumption.
+    + vm_compute. reflexivity.
+    + apply ts_wfb_ok. vm_compute. reflexivity.
+    + apply solve_check_ok. vm_compute. reflexivity.
+  - apply (built_apply_sym_exact QcS_field QcS_eqb (fun a0 => eq_refl) exJacH 1 true 10 None exTs exM
+             (Datatypes.S k) (Datatypes.S nc) pc); try assumption.
+    + exact I.
+    + vm_compute. reflexivity.
+    + apply (sym_matb_ok QcS_eqb). vm_compute. reflexivity.
+    + apply (ts_symb_ok QcS_eqb). vm_compute. reflexivity.
+    + apply (solve_sym_check_ok QcS_eqb). vm_compute. reflexivity.
+    + right. exact I.
+  - intro Hg.
+    apply (built_contracts QcS_field QcS_eqb QcS_ordered exJacH 1 true 10 exTs exM k nc pc); try assumption.
+    + split; vm_compute; reflexivity.
+    + vm_compute. reflexivity.
+    + apply (descs_spdb_ok QcS_eqb). vm_compute. reflexivity.
+    + vm_compute. exact I.
+Qed.
+Print Assumptions C02_apply_contracts_Qc.
 
 (* ================================================================== *)
 (* non-vacuity: the hypothesis sets hold on a concrete 3-level hierarchy over Qc
